@@ -39,7 +39,7 @@ theorem source_shape_as_modelled :
     attributeShapeAsModelled = true ∧ attributeArgumentLiteralsBare = true ∧ stagesCopyKindAndThreadGroupSize = true ∧
     metadataIsExportersDescription = true ∧ entryLookupIsByNameAmongAllFunctions = true ∧
     frontFacts = ⟨true, true, true, true, true, true, true, true, true, true, true, true, true, true, true, true,
-                  true⟩ ∧
+                  true, true, true, true, true, true⟩ ∧
     (regOpen, regSep, regSpace, regClose) = (" : register(", ", ", "space", ")") := by decide
 
 /-- The two exporters use the same ObjectType ↦ DescriptorType table. -/
